@@ -143,6 +143,8 @@ contract(F, "DefaultQueue.do_level", props=["C16"], aliases=AL,
          params={"self": Q}, returns=Seq(WorkPacket),
          yields=["not (it.label in self.ignore)"],
          may_raise=["NoMoreClassesToExpandError"],
+         # the iteration ends normally only when a level has been completed since it started
+         ensures=["len(self.queue_sizes) != old(len(self.queue_sizes))"],
          loops={0: dict(invariant=["wf(self)"], modifies=_NEXT_MODS)},
          modifies=_NEXT_MODS,
          notes="hands out only packets of labels that are not ignored at that moment; a level that cannot start is an error, "
